@@ -44,5 +44,5 @@ ProgressSink ==
   (<>[](obs.coop)) => ([]<>(C.kind = "block" \/ obs.sinkfire))
 (* C03 nothing lost: with a consumer that is eventually always ready every owed item is delivered *)
 NothingLost ==
-  (<>[](obs.rdy)) => ([]<>(Len(q) < Need(C) \/ obs.srcfire))
+  (<>[](obs.rdy)) => ([]<>(Len(q) < Need(C) + C.keep \/ obs.srcfire))
 =============================================================================
